@@ -66,7 +66,7 @@ def trunc_cases(run, name, backend=None, ident=None):
         return
     if ident is None and H.base_name(H.get(name)) == "bcrypt" and name == "bcrypt":
         # every ident the hasher can write (the legacy $2$ layout is emulated by repeating the password first)
-        for ident_ in (("2", "2b") if run.tier == "quick" else ("2", "2a", "2y", "2b")):
+        for ident_ in (("2", "2b") if (run.tier == "quick" or backend == "builtin") else ("2", "2a", "2y", "2b")):
             trunc_cases(run, name, backend, ident_)
             run.count(f"bcrypt_ident:{ident_}")
         return
@@ -91,6 +91,11 @@ def trunc_cases(run, name, backend=None, ident=None):
         deltas = [d for d in deltas if d < 100]
     if ident:
         kw = dict(kw, ident=ident)
+    if backend == "builtin" and "bcrypt" in name:
+        # pure-python bcrypt costs about 0.3 s per hash: one site, two character widths, the deltas next to the limit
+        sites = {k_: v_ for k_, v_ in sites.items() if k_ == "hasher.using"}
+        widths = [1, 3]
+        deltas = [-1, 0, 1, 2]
     for site, (mk, kind) in sites.items():
         for te in (True, False):
             try:
